@@ -177,8 +177,11 @@ class Ctx:
         if ok:
             self.discharged += n
 
-    def known(self, finding, what):
+    def known(self, finding, what, failed_obligations=1):
+        """a failed obligation explained by a listed known finding: it is reported as KNOWN-FINDING and
+        accounted under coverage.known_finding_obligations instead of obligations"""
         self.known_hits.append((finding["id"], what))
+        self.failed_known = getattr(self, "failed_known", 0) + failed_obligations
 
     def violation(self, replay, found_input=True):
         self.violations.append((replay, found_input))
@@ -208,8 +211,9 @@ class Ctx:
             rep["failing_input_found"] = bool(found)
             json.dump(rep, open(path, "w"), indent=1, default=str)
             lines.append("VIOLATION property=%s replay=%s%s" % (self.prop, path, "" if found else " no-failing-input-found"))
+        fk = getattr(self, "failed_known", 0)
         cov = dict(
-            obligations=max(self.oblig, 1), discharged=self.discharged,
+            obligations=max(self.oblig - fk, 1), discharged=self.discharged, known_finding_obligations=fk,
             checker_cmd="cd lean && lake build && lake env lean Audit.lean   (axioms of every Props/%s theorem ⊆ {propext, Classical.choice, Quot.sound}; no sorry/native_decide)  + run-time obligations evaluated by `lake env lean --run Main.lean`" % self.prop,
             trusted_base=self.trusted,
             evaluations=max(self.evaluations, 1), distinct_nontrivial=len(self.distinct),
